@@ -22,17 +22,24 @@ def expandModel (t : Term) : List String :=
     | .error e => "dcg " ++ errStr e
   let body := match t with
     | .app "-->" (.cons _ (.cons b .nil)) =>
-      match phraseGoal b (.var n) (.var (n + 1)) (n + 2) with
+      match dcgBody b (.var n) (.var (n + 1)) (n + 2) with
       | .ok (g, _) => "body " ++ pterm [b, .var n, .var (n + 1), g]
       | .error e => "body " ++ errStr e
     | _ => "body -"
+  -- phrase/3 itself on a body that is (still) a variable
+  let phr := match t with
+    | .app "-->" (.cons _ (.cons (.var v) .nil)) =>
+      match phraseGoal (.var v) (.var n) (.var (n + 1)) (n + 2) with
+      | .ok _ => "phr called"
+      | .error e => "phr " ++ errStr e
+    | _ => "phr -"
   let items := match expandDCG t n with
     | .ok (.app ":-" (.cons _ (.cons b .nil)), _) =>
       "items " ++ pterm [t, Term.list ((altItems b).map fun a => Term.list (seqItems (a.size + 1) a))]
     | _ => "items -"
-  [exp, dcg, body, items]
+  [exp, dcg, body, items, phr]
 
-/-- the same four sections from the specification (reader + reference translation) -/
+/-- the same sections from the specification (reader + reference translation) -/
 def expandSpec (t : Term) : List String :=
   let n := boundT t
   let r := Rule.ofTerm t
@@ -56,7 +63,11 @@ def expandSpec (t : Term) : List String :=
         "items " ++ pterm [t, Term.list ((disjuncts b).map fun a => Term.list (conjuncts a))]
       | _ => "items -"
     | .error _ => "items -"
-  [exp, dcg, body, items]
+  -- DCG draft 8.1.1.3 a: phrase/3 with a variable body is an instantiation error
+  let phr := match t with
+    | .app "-->" (.cons _ (.cons (.var _) .nil)) => "phr err " ++ instErr.canon.wire
+    | _ => "phr -"
+  [exp, dcg, body, items, phr]
 
 def firstDiff : List String → List String → Option String
   | a :: as, b :: bs => if a == b then firstDiff as bs else some (headWord a).1
